@@ -223,6 +223,8 @@ func (c11) Gen(r *sim.RNG, tier string, idx int) *Scenario {
 	if strings.HasPrefix(w.Root, "file://") {
 		if pu, err := url.Parse(w.Root); err == nil {
 			sc.Spellings = append(sc.Spellings, pu.Path) // the plain (decoded) path
+			// scheme case and number of slashes together (each alone is met by the random rewrites)
+			sc.Spellings = append(sc.Spellings, "FILE:"+pu.EscapedPath(), "fILe://"+pu.EscapedPath())
 		}
 	}
 	if strings.HasPrefix(w.Root, "file://"+gen.Prefix+"/api/") {
